@@ -41,7 +41,8 @@ Inductive expr :=
 | ETick (id : Z) (e : expr)
 | ESwitch (cases : list (expr * expr))
 | ECoalesce (es : list expr)
-| EArrow (a b : expr).
+| EArrow (a b : expr)
+| ESelectCase (es : list expr).
 
 Inductive lop :=
 | LMap (body : expr) (cap : nat)
@@ -430,6 +431,18 @@ Section WithEval.
           end
       | _ => (s, Unsup)
       end
+    (* int.switchCase(args...): only the selected argument is evaluated *)
+    else if str_eqb nm [115;119;105;116;99;104;67;97;115;101]%Z then
+      match rv with
+      | VInt z =>
+          match args with
+          | [] => (s, Ok VNull)
+          | _ => let n := Z.of_nat (length args) in
+                 let j := if Z.leb 0 z && Z.ltb z n then z else (n - 1)%Z in
+                 match nth_error args (Z.to_nat j) with Some a => ev s c a | None => (s, Unsup) end
+          end
+      | _ => (s, Unsup)
+      end
     else (s, Unsup).
   Fixpoint eval_switch (s : st) (c : nat) (cs : list (expr * expr)) : st * res val :=
     match cs with
@@ -451,6 +464,18 @@ Section WithEval.
     | a :: r => match ev s c a with
                 | (s1, Ok VNull) => eval_coalesce s1 c r
                 | (s1, Ok v) => (s1, Ok v)
+                | (s1, Err x) => (s1, Err x) | (s1, Unsup) => (s1, Unsup) | (s1, Fuel) => (s1, Fuel)
+                end
+    end.
+  Fixpoint eval_select_case (s : st) (c : nat) (l : list expr) (i : Z) : st * res val :=
+    match l with
+    | [] => (s, Ok (VInt i))
+    | a :: r => match ev s c a with
+                | (s1, Ok v) => match truthy v with
+                                | Ok true => (s1, Ok (VInt i))
+                                | Ok false => eval_select_case s1 c r (i + 1)%Z
+                                | Err k => (s1, Err k) | Unsup => (s1, Unsup) | Fuel => (s1, Fuel)
+                                end
                 | (s1, Err x) => (s1, Err x) | (s1, Unsup) => (s1, Unsup) | (s1, Fuel) => (s1, Fuel)
                 end
     end.
@@ -588,6 +613,7 @@ Fixpoint eval (fuel : nat) (s : st) (c : nat) (e : expr) : st * res val :=
         | (s1, Ok _) => (s1, Err KRes)
         | (s1, Err x) => (s1, Err x) | (s1, Unsup) => (s1, Unsup) | (s1, Fuel) => (s1, Fuel)
         end
+    | ESelectCase es => eval_select_case ev s c es 0%Z
     end
   end.
 
